@@ -92,8 +92,10 @@ public:
 		if(!_front) {
 			_back = borrow;
 		}else{
+			// _front is moved from below: do not go through it afterwards.
+			borrow_pointer old_front = traits::decay(_front);
 			h(borrow).next = std::move(_front);
-			h(_front).previous = borrow;
+			h(old_front).previous = borrow;
 		}
 		_front = std::move(element);
 		h(borrow).in_list = true;
@@ -119,9 +121,9 @@ public:
 
 	iterator insert(iterator before, owner_pointer element) {
 		if(!before._current) {
-			return push_back(element);
+			return push_back(std::move(element));
 		}else if(before._current == _front) {
-			return push_front(element);
+			return push_front(std::move(element));
 		}
 
 		FRG_ASSERT(element);
